@@ -2,6 +2,7 @@
 package c17
 
 import (
+	"encoding/json"
 	"fmt"
 	"regexp"
 	"strings"
@@ -50,6 +51,10 @@ func fill(tpl, v, e string) string {
 }
 
 func exampleItem(lit string) (enumrule.Item, bool) {
+	// (a scalar literal and nothing else: `0]/*` would close the list by itself)
+	if !json.Valid([]byte(lit)) || strings.ContainsAny(lit[:1], "[{") {
+		return enumrule.Item{}, false
+	}
 	r := enumrule.Parse("[" + lit + "]")
 	if !r.Valid || len(r.Items) != 1 {
 		return enumrule.Item{}, false
